@@ -2,6 +2,7 @@ package props
 
 import (
 	"fmt"
+	"reflect"
 	"strings"
 	"testing"
 	"unicode/utf8"
@@ -135,6 +136,67 @@ func identOccurrences(code string) (offs []int, names []string) {
 	return
 }
 
+type lexeme struct {
+	off         int
+	class, text string
+}
+
+// scanLexemes lists the lexemes of a text (comments, white space and `;` left out).
+func scanLexemes(code string) (out []lexeme) {
+	b := []byte(code)
+	i := 0
+	for i < len(b) {
+		c := b[i]
+		switch {
+		case c == '/' && i+1 < len(b) && b[i+1] == '/':
+			for i < len(b) && b[i] != '\n' {
+				i++
+			}
+		case reflex.IsSpace(c) || c == ';':
+			i++
+		case c == '"' || c == '\'':
+			out = append(out, lexeme{i, "string", ""})
+			i, _ = reflex.StringEnd(b, i)
+		case c == '`':
+			out = append(out, lexeme{i, "template", ""})
+			i, _ = reflex.StringEnd(b, i)
+		case reflex.IsIdentStart(c):
+			e := i
+			for e < len(b) && reflex.IsIdentPart(b[e]) {
+				e++
+			}
+			out = append(out, lexeme{i, "word", string(b[i:e])})
+			i = e
+		case reflex.IsDigit(c):
+			e := i
+			for e < len(b) && (reflex.IsIdentPart(b[e]) || (b[e] == '.' && e+1 < len(b) && reflex.IsDigit(b[e+1])) || ((b[e] == '+' || b[e] == '-') && (b[e-1] == 'e' || b[e-1] == 'E') && !(len(b) > i+1 && (b[i+1] == 'x' || b[i+1] == 'X')))) {
+				e++
+			}
+			out = append(out, lexeme{i, "number", string(b[i:e])})
+			i = e
+		default:
+			if op := reflex.OperatorAt(b, i); op != "" {
+				out = append(out, lexeme{i, "punct", op})
+				i += len(op)
+			} else {
+				out = append(out, lexeme{i, "other", string(c)})
+				i++
+			}
+		}
+	}
+	return out
+}
+
+func offsetToLineCol(ti *textIndex, off int) (int, int) {
+	l := 0
+	for k := range ti.lines {
+		if ti.lines[k] <= off {
+			l = k
+		}
+	}
+	return l, off - ti.lines[l]
+}
+
 func c08Check(c c08Case, rec *evid.Recorder) *Fail {
 	p, errs, err := parseX(c.Src, Mode{})
 	if err != nil || len(errs) > 0 {
@@ -148,9 +210,16 @@ func c08Check(c c08Case, rec *evid.Recorder) *Fail {
 	srcIdx := newTextIndex(c.Src)
 	for _, cfg := range cfgs {
 		rec.Eval()
-		res := compile(p, cfg)
-		if res.SourceMap == nil {
+		// one compiler value, used twice: the map of the second compilation is the
+		// one examined, and it must be the map of the first
+		k := cfg.compiler()
+		first := k.Compile(p)
+		res := k.Compile(p)
+		if res.SourceMap == nil || first.SourceMap == nil {
 			return failf("[%s] no source map", cfg)
+		}
+		if first.Code != res.Code || first.SourceMap.Mappings != res.SourceMap.Mappings || !reflect.DeepEqual(first.SourceMap.Names, res.SourceMap.Names) {
+			return failf("[%s] compiling the same tree twice with one compiler gives different results\nfirst  %q %q %v\nsecond %q %q %v", cfg, first.Code, first.SourceMap.Mappings, first.SourceMap.Names, res.Code, res.SourceMap.Mappings, res.SourceMap.Names)
 		}
 		segs, err := smdec.Decode(res.SourceMap.Mappings)
 		if err != nil {
@@ -158,6 +227,23 @@ func c08Check(c c08Case, rec *evid.Recorder) *Fail {
 		}
 		gen := newTextIndex(res.Code)
 		covered := map[int]string{}
+		// occurrence alignment: when the generated code has the same lexeme
+		// sequence as the source (semicolons aside), "the same token" is the
+		// token with the same index, not merely an equal one
+		gl, sl := scanLexemes(res.Code), scanLexemes(c.Src)
+		aligned := len(gl) == len(sl)
+		for i := 0; aligned && i < len(gl); i++ {
+			aligned = gl[i].class == sl[i].class && gl[i].text == sl[i].text
+		}
+		gIdx := map[int]int{}
+		if aligned {
+			for i, l := range gl {
+				gIdx[l.off] = i
+			}
+			rec.Class("lexeme-sequences-aligned")
+		} else {
+			rec.Class("lexeme-sequences-not-aligned (printer added or removed tokens)")
+		}
 		prevL, prevC := 0, -1
 		for i, s := range segs {
 			if s.Fields < 4 {
@@ -196,6 +282,18 @@ func c08Check(c c08Case, rec *evid.Recorder) *Fail {
 						continue
 					}
 					covered[g] = gt
+				}
+				if aligned {
+					k, isTok := gIdx[g]
+					if !isTok {
+						why = fmt.Sprintf("generated position %d:%d is not the start of a token of the generated code", s.GenLine, s.GenCol)
+						continue
+					}
+					if sl[k].off != so {
+						sline, scol := offsetToLineCol(srcIdx, sl[k].off)
+						why = fmt.Sprintf("generated %d:%d is token #%d (%s %q) of the output; the same token of the source begins at %d:%d, the segment points at %d:%d (an equal lexeme elsewhere)", s.GenLine, s.GenCol, k, gc, gt, sline, scol, s.SrcLine, s.SrcCol)
+						continue
+					}
 				}
 				ok = true
 				break
